@@ -66,6 +66,7 @@ def overlay_path():
     ov = {"Replace": {
         os.path.join(REPO, "v3/lint/zz_verif_hooks.go"): os.path.join(VERIF, "hooks/lint_verif.go"),
         os.path.join(REPO, "v3/util/zz_verif_hooks.go"): os.path.join(VERIF, "hooks/util_verif.go"),
+        os.path.join(REPO, "v3/lints/rfc/zz_verif_hooks.go"): os.path.join(VERIF, "hooks/rfc_verif.go"),
     }}
     s = json.dumps(ov)
     if not os.path.exists(p) or open(p).read() != s:
